@@ -34,10 +34,10 @@ func (c *Ctx) checkPins(f *FC, rule string, pins []pin) {
 			}
 			ks := ir.NewNormalizer()
 			ks.KeepShared = true
-			got := canonDiag(ir.String(f.Path, ks.Func(fn)))
-			p.want = canonDiag(p.want)
+			got := f.canon(ir.String(f.Path, ks.Func(fn)))
+			p.want = f.canon(p.want)
 			if got != p.want {
-				if got2, helpers := f.nfInliningNewHelpers(fn, true); len(helpers) > 0 && canonDiag(got2) == p.want {
+				if got2, helpers := f.nfInliningNewHelpers(fn, true); len(helpers) > 0 && f.canon(got2) == p.want {
 					c.R.OK(rule, p.fn, "closed-form", c.Pos(f.M.Fset, fn.Decl.Pos()), p.why+" (after inlining the helper(s) added since the review: "+strings.Join(helpers, ", ")+")")
 					continue
 				}
@@ -49,7 +49,7 @@ func (c *Ctx) checkPins(f *FC, rule string, pins []pin) {
 				sh = newShaper(f)
 			}
 			got, fn := sh.Template(p.fn)
-			got, p.want = canonDiag(got), canonDiag(p.want)
+			got, p.want = f.canon(got), f.canon(p.want)
 			if fn == nil {
 				c.R.Undecided(rule, p.fn, "definition", f.M.Dir, "anchor function not found (renamed or removed): "+p.why)
 				continue
